@@ -28,6 +28,7 @@ func init() {
 	univ.RegisterMethod("bound", "BA", "mokn", i, univ.MVOk)
 	univ.RegisterMethod("bound", "BA", "marg", strp, univ.MCtxErr)
 	univ.RegisterMethod("bound", "BA", "mguard", strp, univ.MCtxErr)
+	univ.RegisterMethod("bound", "BA", "mswap", strp, univ.MCtxErr)
 	univ.RegisterMethod("bound", "BW", "wa", str, univ.MCtxErr)
 	univ.RegisterMethod("bound", "BW", "wb", str, univ.MCtxErr)
 	univ.RegisterMethod("bound", "BW", "wc", i, univ.MCtxErr)
@@ -98,6 +99,14 @@ func (a *BA) Mokn() (int, bool) {
 func (a *BA) Marg(ctx context.Context, x *int, s *string) (*string, error) {
 	args := map[string]any{"x": univ.Canon(reflect.ValueOf(x)), "s": univ.Canon(reflect.ValueOf(s))}
 	v, _, err := univ.Method(ctx, probeName, "BA", a.Vid, "marg", args)
+	return v.Interface().(*string), err
+}
+
+// Mswap takes its (same-typed) parameters in another order than the schema declares the
+// arguments: gqlgen binds them by name.
+func (a *BA) Mswap(ctx context.Context, z *int, x *int, y *int) (*string, error) {
+	args := map[string]any{"x": univ.Canon(reflect.ValueOf(x)), "y": univ.Canon(reflect.ValueOf(y)), "z": univ.Canon(reflect.ValueOf(z))}
+	v, _, err := univ.Method(ctx, probeName, "BA", a.Vid, "mswap", args)
 	return v.Interface().(*string), err
 }
 
